@@ -5,6 +5,7 @@
 -/
 import WowVerif.Lemmas.C19
 import WowVerif.Lemmas.C19Buf
+import WowVerif.Lemmas.C19Close
 import WowVerif.Gen.Locks
 namespace Wv.C19
 open Wv.Ffi
@@ -67,6 +68,39 @@ theorem find_data_within_array (name : Wv.Bytes) :
 
 example : Wv.Buf.archiveName [97, 98] 3 = some [97, 98, 0] ∧ Wv.Buf.archiveName [97, 98] 2 = none := by decide
 example : Wv.Buf.plainStart [97, 92, 98, 92, 99, 100] = 4 := by decide
+
+/-! ### closing an archive while other threads open files and searches on it (Model.C19Close) -/
+
+/-- EVERY SCHEDULE: whatever the interleaving of SFileCloseArchive's three lock-protected sections with any number of
+    SFileOpenFileEx calls and SFileFindFirstFile calls (each three sections) on the same archive, once the close has
+    finished no file handle on the archive exists, and every search handle still stored belongs to a search that has not
+    yet executed its final look-up (which will drop it). In particular, when no search is in flight, NOTHING outlives the
+    archive: "closing an archive invalidates exactly its own file and search handles", for any number of threads. -/
+theorem close_leaves_nothing (sched : List Wv.Close.Act) (hc : (Wv.Close.run true true sched).closePc = 3) :
+    (Wv.Close.run true true sched).arch = false ∧ (Wv.Close.run true true sched).files = 0 ∧
+    (∀ t ∈ (Wv.Close.run true true sched).finds, (Wv.Close.run true true sched).pc t = 2) ∧
+    ((∀ t, (Wv.Close.run true true sched).pc t ≠ 2) → (Wv.Close.run true true sched).finds = []) := by
+  have inv := Wv.Close.inv_run sched
+  refine ⟨inv.gone (by omega), inv.nofiles (by omega), inv.pending (by omega), fun hno => ?_⟩
+  cases hf : (Wv.Close.run true true sched).finds with
+  | nil => rfl
+  | cons t rest => exact absurd (inv.pending (by omega) t (by rw [hf]; simp)) (hno t)
+
+/-- the order used before repair D70 (purge the handles, THEN remove the archive) is not safe: a schedule of four steps
+    leaves a file handle behind (kernel-evaluated witness; the same schedule was observed on the real code) -/
+theorem old_close_order_leaves_file_handle :
+    (Wv.Close.run false true [.close, .openFile, .close, .close]).closePc = 3 ∧
+    (Wv.Close.run false true [.close, .openFile, .close, .close]).files = 1 := by decide
+
+/-- … and without the final look-up of SFileFindFirstFile a search handle survives even with the archive removed first -/
+theorem search_without_recheck_leaves_handle :
+    (Wv.Close.run true false [.find 7, .close, .close, .close, .find 7, .find 7]).closePc = 3 ∧
+    (Wv.Close.run true false [.find 7, .close, .close, .close, .find 7, .find 7]).finds = [7] ∧
+    (Wv.Close.run true false [.find 7, .close, .close, .close, .find 7, .find 7]).pc 7 = 3 := by decide
+
+/-! non-vacuity: a schedule in which the close finishes with opens and a search interleaved -/
+example : (Wv.Close.run true true [.openFile, .find 1, .close, .openFile, .find 1, .close, .close, .find 1]).closePc = 3 ∧
+    (Wv.Close.run true true [.openFile, .find 1, .close, .openFile, .find 1, .close, .close, .find 1]).finds = [] := by decide
 
 /-- LOCK ORDER: the acquisition graph extracted from the C API's current source (regenerated every run) has no
     cycle — checked as "edges respect a strict ranking of the four global mutexes" -/
